@@ -39,7 +39,7 @@ NewLink == [ech |-> -1, pch |-> -1, eh |-> -1, ph |-> -1, name |-> "", eutSender
             idc |-> 0, dcS |-> 0, limit |-> -1, drainOwed |-> FALSE, echoOwed |-> FALSE, inDel |-> FALSE, curDid |-> -1,
             sendsIssued |-> 0, delsDone |-> 0, blockedBy |-> "none", lastM |-> -1, cancels |-> 0,
             \* receiver role (EUT receives)
-            dcR |-> 0, dcGot |-> 0, lcR |-> 0, limitR |-> 0, limitMax |-> 0, idcP |-> 0, accepted |-> 0, broken |-> FALSE, aborts |-> 0, cfgActive |-> FALSE, creditMode |-> -2, autoAcc |-> FALSE, expectLc |-> -1, dispN |-> 1, held |-> 0, pInDel |-> FALSE,
+            dcR |-> 0, dcGot |-> 0, lcR |-> 0, limitR |-> 0, limitMax |-> 0, idcP |-> 0, accepted |-> 0, broken |-> FALSE, aborts |-> 0, cfgActive |-> FALSE, creditMode |-> -2, autoAcc |-> FALSE, expectLc |-> -1, appLc |-> -1, dispN |-> 1, held |-> 0, pInDel |-> FALSE,
             inq |-> <<>>,          \* incoming deliveries not yet handed to the application
             got |-> <<>>,          \* deliveries handed to the application: [did, m, app (state chosen by the application or "none"), presettled]
             \* settlement
@@ -49,7 +49,7 @@ NewLink == [ech |-> -1, pch |-> -1, eh |-> -1, ph |-> -1, name |-> "", eutSender
 InitState == [side |-> "client", sc |-> 0, last |-> "Init", now |-> 0,
   \* connection
   ehdr |-> FALSE, eframes |-> 0, eopens |-> 0, ecloses |-> 0, ecloseErr |-> FALSE, eeof |-> FALSE,
-  phdr |-> "none", popen |-> FALSE, pclose |-> FALSE, pcloseErr |-> "", pcloseHeard |-> FALSE, peof |-> FALSE, illegal |-> FALSE, garbage |-> FALSE,
+  phdr |-> "none", popen |-> FALSE, pclose |-> FALSE, pcloseErr |-> "", pcloseHeard |-> FALSE, peof |-> FALSE, illegal |-> FALSE, garbage |-> FALSE, noise |-> FALSE,
   oblClose |-> FALSE, openRet |-> "none", closeRet |-> "none", hook |-> FALSE, tol |-> 2, timedOut |-> FALSE, panics0 |-> -1, lidle |-> -1, shutAfterIllegal |-> FALSE, illegalWhat |-> "", deadAt |-> 0, callAt |-> <<>>, appTeardown |-> FALSE, lastAlive |-> 0, lastPending |-> 0, badAttach |-> "-", badAttachPending |-> FALSE,
   emfs |-> 512, pmfs |-> 512, echmax |-> 65535, pchmax |-> 65535, eidle |-> -1, pidle |-> -1, lastE |-> 0, lastP |-> 0, openAt |-> -1,
   ss |-> <<>>, ls |-> <<>>, pendCfg |-> <<>>, pendSess |-> <<>>]
@@ -210,7 +210,7 @@ H_EFlow(s, r, l) ==
        R(SetL(s, k, [y EXCEPT !.lcR = f.lc, !.limitR = f.dc + Max(f.lc, 0), !.limitMax = Max(@, f.dc + Max(f.lc, 0)), !.expectLc = -1]),
          fs + Chk("C09_FlowCount", f.dc >= y.dcGot /\ f.dc <= y.dcR, l, "")
             + Chk("C09_FlowCredit", y.expectLc < 0 \/ f.lc = y.expectLc, l, "")
-            + Chk("C09_FlowCreditAuto", ~y.cfgActive \/ y.creditMode < 0 \/ y.expectLc >= 0 \/ f.drain \/ f.lc <= y.creditMode, l, ""))
+            + Chk("C09_FlowCreditAuto", ~y.cfgActive \/ y.creditMode < 0 \/ y.expectLc >= 0 \/ f.drain \/ f.lc <= Max(y.creditMode, y.appLc), l, ""))   \* (credit the application raised itself may be re-announced)
 
 \* a delivery that may be handed to the application: complete, not aborted, not contradictory
 Eligible(e) == e.complete /\ ~e.aborted /\ ~e.contra
@@ -361,6 +361,9 @@ H_PFrame(s, r, l) ==
   \* the peer's close is heard even after the EUT has sent its own
   IF r.written /\ r.perf = "close" /\ s.phdr = "amqp" /\ ~s.eeof /\ ~s.garbage /\ s.popen /\ s.ecloses > 0
   THEN R([s EXCEPT !.lastP = r.t, !.pclose = TRUE, !.pcloseErr = r.f.err, !.pcloseHeard = TRUE], 0) ELSE
+  \* frames that reach the EUT while it waits for the answer to its close are not judged (they may be in flight or may be
+  \* violations such as a second open or a begin for an unknown channel); the close result is then not required to be clean
+  IF r.written /\ r.perf \notin {"close", "empty"} /\ s.ecloses > 0 /\ ~s.eeof THEN R([s EXCEPT !.lastP = r.t, !.noise = TRUE], 0) ELSE
   IF ~r.written \/ ~Listening(s) THEN R([s EXCEPT !.lastP = r.t], 0) ELSE
   LET s1 == [s EXCEPT !.lastP = r.t] IN
   IF r.perf = "empty" THEN R(s1, 0)
@@ -402,7 +405,7 @@ H_ApiCall(s, r, l) ==
                             !.got = [n \in DOMAIN @ |-> IF \E j \in DOMAIN r.args.dids : r.args.dids[j] = @[n].did THEN [@[n] EXCEPT !.app = st] ELSE @[n]]]), 0)
   ELSE IF r.op = "set_credit" THEN
        LET k == LinkByName(s, r.lname, FALSE) IN
-       IF k = 0 THEN R(s, 0) ELSE R(SetL(s, k, [s.ls[k] EXCEPT !.expectLc = r.args.n, !.touched = TRUE]), 0)
+       IF k = 0 THEN R(s, 0) ELSE R(SetL(s, k, [s.ls[k] EXCEPT !.expectLc = r.args.n, !.appLc = r.args.n, !.touched = TRUE]), 0)
   ELSE IF r.scope # "" /\ r.lname # "" /\ r.op # "await_outcome" THEN
        \* any operation on a link counts as the application touching it
        LET k == LastIdx(s.ls, LAMBDA y : y.name = r.lname /\ y.eAtt) IN
@@ -446,7 +449,7 @@ H_ApiRet(s, r, l) ==
            Chk("C12_CloseResult_PeerError", ~(s.pcloseHeard /\ s.pcloseErr # "") \/ (~r.res.ok /\ r.res.cond = s.pcloseErr), l, r.res.class)
          \* a clean close (no error on either side) is reported as Ok, or -- when the peer closed first -- as the
          \* error-free notification RemoteClosed; never as an error carrying a condition
-         + Chk("C12_CloseResult_Clean", ~(s.pcloseHeard /\ s.pcloseErr = "" /\ ~s.illegal /\ s.ecloses = 1 /\ ~s.ecloseErr /\ ~s.garbage)
+         + Chk("C12_CloseResult_Clean", ~(s.pcloseHeard /\ s.pcloseErr = "" /\ ~s.illegal /\ s.ecloses = 1 /\ ~s.ecloseErr /\ ~s.garbage /\ ~s.noise)
                                         \/ r.res.ok \/ (r.res.class = "RemoteClosed" /\ r.res.cond = ""), l, r.res.class)
          + Chk("C13_TeardownWaits", ~(r.op = "close" /\ r.res.ok) \/ s.pcloseHeard \/ s.peof, l, "close")
          \* the connection handle reports a transport failure itself
